@@ -95,7 +95,7 @@ def rule_exec_order(chk: Check, model, rid: str, cv: CompiledView):
     chk.add(rid, "generations[:-1] in ascending order", bool(ok), "the non-uniform branch must iterate zip(generations[:-1], timings_mcs) without reversal", chk.loc(fi))
     # uniform branch: flattened over timings_mcs[:-1], scanned with _run_generation
     scans = [e for e in sub.events if e.kind == "call" and e.name == "jax.lax.scan" and e.func == fi.qualname]
-    ok = len(scans) == 1 and scans[0].args[0] == cv.outer.env["_run_generation"]
+    ok = len(scans) == 1 and scans[0].args[0] == cv.outer.env[model.local_name("partition_runner.make_run_partition_excl_supervisor._run_generation")]
     chk.add(rid, "uniform supergraph: scan of _run_generation", ok, "the uniform branch must scan _run_generation over the stacked slot timings", chk.loc(fi))
     # sorted by generation (outer function)
     f_out = model.func("partition_runner.make_run_partition_excl_supervisor")
